@@ -26,6 +26,7 @@ type c16Page struct {
 	layout  bool
 	slots   bool
 	kinds   map[string]string
+	selfInc bool // the page includes itself (bounded by a level variable): only file-backed entry points are judged
 }
 
 func genC16Page(r *Rand, g *Gen, idx int) *c16Page {
@@ -46,14 +47,43 @@ func genC16Page(r *Rand, g *Gen, idx int) *c16Page {
 		for m := range p.markers {
 			before[m] = true
 		}
-		which := r.Intn(23)
+		which := r.Intn(26)
 		kindNames := []string{"page top level", "loop body", "component included k times", "two components", "side by side", "unreachable branch", "component inside a loop",
 			"on the loop element", "component reached directly and through a wrapper", "nested loops", "shorthand component tag", "component with <template> root", "v-if branch taken",
 			"slot content, component used twice", "same-name components in different directories", "else-branch inside a loop", "v-once on the <template> root of a component",
 			"default slot content placed at two outlets", "v-else after an empty loop inside a loop",
 			"named slot content placed at two outlets", "named slot content placed in a loop",
-			"<template v-else v-once> inside a loop", "v-once elements nested in a v-once ancestor"}
+			"<template v-else v-once> inside a loop", "v-once elements nested in a v-once ancestor",
+			"v-once head of an if-chain with its else-branch, inside a loop", "v-once with a v-if that is false at the first instantiation (loop)",
+			"v-once with a v-if that is false at the first include of its component"}
 		switch which {
+		case 23: // the head of an if-chain carries v-once: once it has been emitted, later iterations must still reach the else-branch
+			ma, mb := mk(), mk()
+			if r.Bool() {
+				// else-branch with its own v-once: emitted once, at the first iteration that takes it
+				parts = append(parts, fmt.Sprintf(`<div v-for="(i, item) in items"><%s v-if="i == 0" v-once>%s</%s><%s %s v-once>%s</%s></div>`, tag, ma, tag, tag, Pick(r, []string{"v-else", `v-else-if="i > 0"`}), mb, tag))
+				p.markers[mb] = func(items int, _ bool) int { return min1(items - 1) }
+			} else {
+				// plain else-branch: emitted at every iteration that takes it
+				parts = append(parts, fmt.Sprintf(`<div v-for="(i, item) in items"><%s v-if="i == 0" v-once>%s</%s><%s v-else>%s</%s></div>`, tag, ma, tag, tag, mb, tag))
+				p.markers[mb] = func(items int, _ bool) int {
+					if items > 1 {
+						return items - 1
+					}
+					return 0
+				}
+			}
+			p.markers[ma] = func(items int, _ bool) int { return min1(items) }
+		case 24: // not emitted at its first instantiation (v-if false there): it must be emitted at the first one that reaches it
+			m := mk()
+			parts = append(parts, fmt.Sprintf(`<div v-for="(i, item) in items"><%s v-once v-if="i >= 1">%s</%s></div>`, tag, m, tag))
+			p.markers[m] = func(items int, _ bool) int { return min1(items - 1) }
+		case 25: // the same through repeated includes of a component
+			m := mk()
+			comp := fmt.Sprintf("components/Once%s.vuego", m)
+			g.put(comp, fmt.Sprintf(`<div class="oi"><%s v-once v-if="show">%s</%s><u>x</u></div>`, tag, m, tag))
+			parts = append(parts, fmt.Sprintf(`<template include="%s"></template><template include="%s" show="1"></template><template include="%s" show="1"></template>`, comp, comp, comp))
+			p.markers[m] = func(int, bool) int { return 1 }
 		case 21: // a <template> else-branch carrying v-once, taken at every iteration
 			m := mk()
 			parts = append(parts, fmt.Sprintf(`<div v-for="item in items"><p v-if="off">never</p><template %s v-once><%s>%s</%s></template></div>`, Pick(r, []string{"v-else", `v-else-if="!off"`}), tag, m, tag))
@@ -225,6 +255,16 @@ func genC16(seed uint64, run int, tier string) *RunSpec {
 	for i := 0; i < np; i++ {
 		pages = append(pages, genC16Page(r, g, i))
 	}
+	if r.Chance(20) {
+		// a page that includes itself, bounded by a level variable: the entry-level instantiation and the included
+		// ones are instantiations of the same elements of the same file
+		p := &c16Page{name: fmt.Sprintf("pages/tree%d.vuego", len(pages)), fm: map[string]string{}, markers: map[string]func(int, bool) int{}, kinds: map[string]string{}, selfInc: true}
+		m := g.onceMarker()
+		p.body = fmt.Sprintf(`<ul class="tree"><style v-once>.%s{}</style><li>level {{ lvl }}</li><li v-if="(lvl ?? 0) < %d"><template include="%s" :lvl="(lvl ?? 0) + 1"></template></li></ul>`+"\n", m, 1+r.Intn(3), p.name)
+		p.markers[m] = func(int, bool) int { return 1 }
+		p.kinds[m] = "page that includes itself"
+		pages = append(pages, p)
+	}
 	// layouts: optional; a layout may hold its own v-once element and share a component with the page
 	layoutMarkers := map[string]func(int, bool) int{}
 	var slotMarkers []string
@@ -260,7 +300,7 @@ func genC16(seed uint64, run int, tier string) *RunSpec {
 		layoutMarkers[lm] = func(int, bool) int { return 1 }
 		layoutMarkers[lm+"X"] = func(int, bool) int { return 1 }
 		for _, p := range pages {
-			if r.Chance(70) {
+			if r.Chance(70) && !p.selfInc {
 				p.layout = true
 				p.fm["layout"] = "once"
 				if shared != "" {
@@ -313,6 +353,11 @@ func genC16(seed uint64, run int, tier string) *RunSpec {
 		}
 		op.Expect.Kinds = map[string]string{}
 		for m, f := range p.markers {
+			if p.selfInc && !(isFile || entry == "Vue.Render" || entry == "Vue.RenderFragment") {
+				// the entry template is a string / node list with the file's text: whether its elements are "the same"
+				// as those of the file it includes is not something the statement settles
+				continue
+			}
 			op.Expect.Markers[m] = f(d.Items, d.Flag)
 			op.Expect.Kinds[m] = p.kinds[m]
 		}
